@@ -499,6 +499,13 @@ func drainChannel(c chan DoneWithState) {
 func (s *Server) Clear() {
 	// we do not drain InitDoneChannel, because Init is only done once during rapid lifetime
 
+	// an init failure that nobody has awaited belongs to the generation that was torn down:
+	// the next invoke must not take it for a failure of the init it is about to trigger
+	select {
+	case <-s.getInitFailuresChan():
+	default:
+	}
+
 	drainChannel(s.InvokeDoneChan)
 	s.setCachedInitErrorResponse(nil)
 	s.Release()
